@@ -1,5 +1,442 @@
-//! C18 — not built yet.
-#![allow(unused)]
+//! C18 — distributions are a pure function of their current parameters and the RNG seed.
+//! Histories of setter / update calls (valid and invalid interleaved, panics caught, the object used further)
+//! on the 13 univariate distributions.  `gen` records, after every call, whether it returned and the COMPLETE
+//! state of the object (every field, cached sub-samplers included, read through `{:?}`) for the lock-step
+//! comparison with the Coq state machines; `oracle` is the property itself: fresh-twin comparison, valid
+//! requests succeed, invalid ones panic, no object holds parameters its constructor refuses.
 use crate::util::*;
-pub fn gen(_tier: &str, _seed: u64, _outdir: &str) { eprintln!("C18: gen not implemented"); std::process::exit(3); }
-pub fn oracle(_tier: &str, _seed: u64) -> (u64, Vec<Finding>) { eprintln!("C18: oracle not implemented"); std::process::exit(3); }
+use compute::distributions::*;
+
+// ------------------------------------------------------------------------------------------------ table
+#[derive(Clone, Copy, PartialEq, Debug)]
+enum K { F, U, I }                       // type of a constructor argument: f64, u64/usize, i64
+#[derive(Clone, Copy, PartialEq, Debug)]
+enum Dom { Any, Pos, NonNeg, Prob, PosInt, AnyInt, Lower, Upper }   // textbook domain of a parameter
+struct Spec { name: &'static str, names: &'static [&'static str], kinds: &'static [K], doms: &'static [Dom], discrete: bool }
+// ids as in Generated/dist_setters.v (`machines`); method k < arity is the setter of parameter k, k = arity is update
+const SPECS: [Spec; 13] = [
+    Spec { name: "Bernoulli", names: &["p"], kinds: &[K::F], doms: &[Dom::Prob], discrete: true },
+    Spec { name: "Beta", names: &["alpha", "beta"], kinds: &[K::F, K::F], doms: &[Dom::Pos, Dom::Pos], discrete: false },
+    Spec { name: "Binomial", names: &["n", "p"], kinds: &[K::U, K::F], doms: &[Dom::AnyInt, Dom::Prob], discrete: true },
+    Spec { name: "ChiSquared", names: &["dof"], kinds: &[K::U], doms: &[Dom::PosInt], discrete: false },
+    Spec { name: "DiscreteUniform", names: &["lower", "upper"], kinds: &[K::I, K::I], doms: &[Dom::Lower, Dom::Upper], discrete: true },
+    Spec { name: "Exponential", names: &["lambda"], kinds: &[K::F], doms: &[Dom::Pos], discrete: false },
+    Spec { name: "Gamma", names: &["alpha", "beta"], kinds: &[K::F, K::F], doms: &[Dom::Pos, Dom::Pos], discrete: false },
+    Spec { name: "Gumbel", names: &["mu", "beta"], kinds: &[K::F, K::F], doms: &[Dom::Any, Dom::Pos], discrete: false },
+    Spec { name: "Normal", names: &["mu", "sigma"], kinds: &[K::F, K::F], doms: &[Dom::Any, Dom::NonNeg], discrete: false },
+    Spec { name: "Pareto", names: &["alpha", "minval"], kinds: &[K::F, K::F], doms: &[Dom::Pos, Dom::Pos], discrete: false },
+    Spec { name: "Poisson", names: &["lambda"], kinds: &[K::F], doms: &[Dom::Pos], discrete: true },
+    Spec { name: "T", names: &["dof"], kinds: &[K::F], doms: &[Dom::Pos], discrete: false },
+    Spec { name: "Uniform", names: &["lower", "upper"], kinds: &[K::F, K::F], doms: &[Dom::Lower, Dom::Upper], discrete: false },
+];
+
+#[derive(Clone, Copy, Debug, PartialEq)]
+enum Val { I(i128), F(f64) }
+impl Val {
+    fn f(&self) -> f64 { match self { Val::F(x) => *x, Val::I(n) => *n as f64 } }
+    fn i(&self) -> i128 { match self { Val::I(n) => *n, Val::F(x) => *x as i128 } }
+    fn same(&self, o: &Val) -> bool { match (self, o) { (Val::I(a), Val::I(b)) => a == b, (Val::F(a), Val::F(b)) => a.to_bits() == b.to_bits(), _ => false } }
+    fn show(&self) -> String { match self { Val::I(n) => format!("{}", n), Val::F(x) => format!("{:e}", x) } }
+}
+fn same_vals(a: &[Val], b: &[Val]) -> bool { a.len() == b.len() && a.iter().zip(b).all(|(x, y)| x.same(y)) }
+fn show_vals(a: &[Val]) -> String { format!("[{}]", a.iter().map(|v| v.show()).collect::<Vec<_>>().join(", ")) }
+
+/// the textbook (documented) domain, independent of the code
+fn in_domain(sp: &Spec, p: &[Val]) -> bool {
+    for (k, d) in sp.doms.iter().enumerate() {
+        let ok = match d {
+            Dom::Any => true,
+            Dom::Pos => p[k].f() > 0.0,
+            Dom::NonNeg => p[k].f() >= 0.0,
+            Dom::Prob => p[k].f() >= 0.0 && p[k].f() <= 1.0,
+            Dom::PosInt => p[k].i() > 0,
+            Dom::AnyInt => true,
+            Dom::Lower => match (p[k], p[k + 1]) { (Val::I(a), Val::I(b)) => a <= b, (a, b) => a.f() <= b.f() },
+            Dom::Upper => true,
+        };
+        if !ok { return false; }
+    }
+    true
+}
+
+// ------------------------------------------------------------------------------------------------ objects
+#[derive(Clone, Copy)]
+enum Obj {
+    Bernoulli(Bernoulli), Beta(Beta), Binomial(Binomial), ChiSquared(ChiSquared), DiscreteUniform(DiscreteUniform),
+    Exponential(Exponential), Gamma(Gamma), Gumbel(Gumbel), Normal(Normal), Pareto(Pareto), Poisson(Poisson), T(T), Uniform(Uniform),
+}
+#[derive(Clone, Debug)]
+enum Arg { Set(Val), Update(Vec<f64>) }
+
+fn construct(id: usize, p: &[Val]) -> Result<Obj, String> {
+    let f = |i: usize| p[i].f();
+    let u = |i: usize| p[i].i() as u64;
+    let n = |i: usize| p[i].i() as i64;
+    catch(|| match id {
+        0 => Obj::Bernoulli(Bernoulli::new(f(0))),
+        1 => Obj::Beta(Beta::new(f(0), f(1))),
+        2 => Obj::Binomial(Binomial::new(u(0), f(1))),
+        3 => Obj::ChiSquared(ChiSquared::new(u(0) as usize)),
+        4 => Obj::DiscreteUniform(DiscreteUniform::new(n(0), n(1))),
+        5 => Obj::Exponential(Exponential::new(f(0))),
+        6 => Obj::Gamma(Gamma::new(f(0), f(1))),
+        7 => Obj::Gumbel(Gumbel::new(f(0), f(1))),
+        8 => Obj::Normal(Normal::new(f(0), f(1))),
+        9 => Obj::Pareto(Pareto::new(f(0), f(1))),
+        10 => Obj::Poisson(Poisson::new(f(0))),
+        11 => Obj::T(T::new(f(0))),
+        12 => Obj::Uniform(Uniform::new(f(0), f(1))),
+        _ => unreachable!(),
+    })
+}
+
+macro_rules! each { ($o:expr, $d:ident => $e:expr) => { match $o {
+    Obj::Bernoulli($d) => $e, Obj::Beta($d) => $e, Obj::Binomial($d) => $e, Obj::ChiSquared($d) => $e, Obj::DiscreteUniform($d) => $e,
+    Obj::Exponential($d) => $e, Obj::Gamma($d) => $e, Obj::Gumbel($d) => $e, Obj::Normal($d) => $e, Obj::Pareto($d) => $e,
+    Obj::Poisson($d) => $e, Obj::T($d) => $e, Obj::Uniform($d) => $e } } }
+
+impl Obj {
+    fn call(&mut self, k: usize, a: &Arg) -> Result<(), String> {
+        catch(move || {
+            if let Arg::Update(v) = a { each!(self, d => d.update(v)); return; }
+            let v = match a { Arg::Set(v) => *v, _ => unreachable!() };
+            let (f, u, n) = (v.f(), v.i() as u64, v.i() as i64);
+            match (self, k) {
+                (Obj::Bernoulli(d), 0) => { d.set_p(f); }
+                (Obj::Beta(d), 0) => { d.set_alpha(f); } (Obj::Beta(d), 1) => { d.set_beta(f); }
+                (Obj::Binomial(d), 0) => { d.set_n(u); } (Obj::Binomial(d), 1) => { d.set_p(f); }
+                (Obj::ChiSquared(d), 0) => { d.set_dof(u as usize); }
+                (Obj::DiscreteUniform(d), 0) => { d.set_lower(n); } (Obj::DiscreteUniform(d), 1) => { d.set_upper(n); }
+                (Obj::Exponential(d), 0) => { d.set_lambda(f); }
+                (Obj::Gamma(d), 0) => { d.set_alpha(f); } (Obj::Gamma(d), 1) => { d.set_beta(f); }
+                (Obj::Gumbel(d), 0) => { d.set_mu(f); } (Obj::Gumbel(d), 1) => { d.set_beta(f); }
+                (Obj::Normal(d), 0) => { d.set_mu(f); } (Obj::Normal(d), 1) => { d.set_sigma(f); }
+                (Obj::Pareto(d), 0) => { d.set_alpha(f); } (Obj::Pareto(d), 1) => { d.set_minval(f); }
+                (Obj::Poisson(d), 0) => { d.set_lambda(f); }
+                (Obj::T(d), 0) => { d.set_dof(f); }
+                (Obj::Uniform(d), 0) => { d.set_lower(f); } (Obj::Uniform(d), 1) => { d.set_upper(f); }
+                _ => unreachable!(),
+            }
+        })
+    }
+    fn debug(&self) -> String { each!(self, d => format!("{:?}", d)) }
+    /// every field of the object, depth first in declaration order, from the derived Debug output
+    fn flat(&self) -> Vec<Val> { parse_debug(&self.debug()) }
+    fn params(&self, sp: &Spec) -> Vec<Val> { self.flat()[..sp.kinds.len()].to_vec() }
+
+    /// what a user can see without touching the RNG: density/mass at probe points, mean, variance
+    fn look(&self) -> Vec<u64> {
+        fn cont<D: Continuous<PDFType = f64> + Mean<MeanType = f64> + Variance<VarianceType = f64>>(d: &D) -> Vec<u64> {
+            let mut v = vec![];
+            for x in [-2.5, -1.0, 0.0, 0.25, 0.5, 1.0, 1.5, 3.0, 10.0] { v.push(bits(catch(|| d.pdf(x)))); }
+            v.push(bits(catch(|| d.mean()))); v.push(bits(catch(|| d.var()))); v
+        }
+        fn disc<D: Discrete + Mean<MeanType = f64> + Variance<VarianceType = f64>>(d: &D) -> Vec<u64> {
+            let mut v = vec![];
+            for x in [-1i64, 0, 1, 2, 5, 10] { v.push(bits(catch(|| d.pmf(x)))); }
+            v.push(bits(catch(|| d.mean()))); v.push(bits(catch(|| d.var()))); v
+        }
+        match self {
+            Obj::Bernoulli(d) => disc(d), Obj::Binomial(d) => disc(d), Obj::DiscreteUniform(d) => disc(d), Obj::Poisson(d) => disc(d),
+            Obj::Beta(d) => cont(d), Obj::ChiSquared(d) => cont(d), Obj::Exponential(d) => cont(d), Obj::Gamma(d) => cont(d),
+            Obj::Gumbel(d) => cont(d), Obj::Normal(d) => cont(d), Obj::Pareto(d) => cont(d), Obj::T(d) => cont(d), Obj::Uniform(d) => cont(d),
+        }
+    }
+    /// the first `n` draws after `alea::set_seed(seed)`
+    fn draws(&self, seed: u64, n: usize) -> Vec<u64> {
+        alea::set_seed(seed);
+        (0..n).map(|_| bits(catch(|| each!(self, d => d.sample())))).collect()
+    }
+}
+const PANIC_BITS: u64 = 0x7ff8_dead_beef_0001;
+fn bits(r: Result<f64, String>) -> u64 { match r { Ok(x) => if x.is_nan() { 0x7ff8_0000_0000_0000 } else { x.to_bits() }, Err(_) => PANIC_BITS } }
+
+/// Sampling terminates (quickly) in the unrepaired samplers only in these regions (C03 owns the samplers:
+/// Marsaglia-Tsang loops forever for shape < 1/3, the inversion sampler for an underflowing (1-p)^n).
+fn sample_safe(id: usize, p: &[Val]) -> bool {
+    if p.iter().any(|v| matches!(v, Val::F(x) if x.is_nan())) { return false; }   // Poisson's PTRS loop never accepts with a NaN rate
+    match id {
+        1 => p[0].f() >= 0.34 && p[1].f() >= 0.34,
+        6 => p[0].f() >= 0.34,
+        11 => p[0].f() >= 0.68,
+        2 => p[0].i() <= 100_000,
+        10 => p[0].f() <= 1e6,
+        _ => true,
+    }
+}
+
+fn parse_debug(s: &str) -> Vec<Val> {
+    // `name: value` pairs whose value is a number, in textual order
+    let b = s.as_bytes();
+    let mut out = vec![]; let mut i = 0;
+    while i + 1 < b.len() {
+        if b[i] == b':' && b[i + 1] == b' ' {
+            let mut j = i + 2;
+            while j < b.len() && !matches!(b[j], b',' | b' ' | b'}') { j += 1; }
+            let tok = &s[i + 2..j];
+            if let Some(c) = tok.chars().next() {
+                if c.is_ascii_digit() || c == '-' || tok == "inf" || tok == "NaN" {
+                    if tok.contains('.') || tok.contains('e') || tok.contains("inf") || tok == "NaN" { out.push(Val::F(tok.parse::<f64>().unwrap())); }
+                    else { out.push(Val::I(tok.parse::<i128>().unwrap())); }
+                }
+            }
+            i = j;
+        } else { i += 1; }
+    }
+    out
+}
+
+// ------------------------------------------------------------------------------------------------ inputs
+fn pos_value(r: &mut Rng, valid: bool) -> f64 {
+    if valid {
+        match r.below(12) { 0 => 0.5, 1 => 1.0, 2 => 2.5, 3 => 10.0, 4 => 1e-3, 5 => 1e3, 6 => 5e-324, 7 => 1e308, 8 => f64::INFINITY,
+                            9 => 0.34 + r.unit(), _ => r.uniform(0.34, 20.0) }
+    } else {
+        *r.pick(&[0.0, -0.0, -1.0, -1e-300, -5e-324, f64::NEG_INFINITY, -2.5])
+    }
+}
+fn value_for(r: &mut Rng, d: Dom, valid: bool) -> f64 {
+    match d {
+        Dom::Any | Dom::Lower | Dom::Upper => match r.below(8) { 0 => 0.0, 1 => -0.0, 2 => f64::INFINITY, 3 => f64::NEG_INFINITY, 4 => 1e300, 5 => -1e-310, _ => r.uniform(-10.0, 10.0) },
+        Dom::Pos => pos_value(r, valid),
+        Dom::NonNeg => if valid { if r.coin(0.2) { *r.pick(&[0.0, -0.0]) } else { pos_value(r, true) } } else { *r.pick(&[-1.0, -1e-300, -5e-324, f64::NEG_INFINITY]) },
+        Dom::Prob => if valid { match r.below(8) { 0 => 0.0, 1 => 1.0, 2 => -0.0, 3 => 5e-324, 4 => 1.0 - f64::EPSILON / 2.0, 5 => 0.5, _ => r.unit() } }
+                     else { *r.pick(&[-1e-17, 1.0 + f64::EPSILON, 2.0, -1.0, f64::INFINITY, f64::NEG_INFINITY, -5e-324]) },
+        Dom::PosInt | Dom::AnyInt => {
+            // a float handed to update(): truncated and saturated by `as usize` / `as u64`
+            let ok = [1.0, 2.0, 2.7, 5.0, 17.99, 100.0, 1e6, 9007199254740993.0, 9.3e18, 1.8446744073709552e19, 1e19, 1e300, f64::INFINITY];
+            let zero = [0.0, -0.0, 0.99, -0.5, -3.0, -1e300, f64::NEG_INFINITY, 5e-324];
+            if valid || d == Dom::AnyInt && r.coin(0.5) { *r.pick(&ok) } else { *r.pick(&zero) }
+        }
+    }
+}
+fn int_for(r: &mut Rng, k: K, d: Dom, valid: bool) -> i128 {
+    match k {
+        K::U => if valid || d == Dom::AnyInt { *r.pick(&[1i128, 2, 3, 5, 10, 100, 1000, (1 << 53) + 1, u64::MAX as i128, 7, 30]) } else { 0 },
+        _ => match r.below(10) { 0 => i64::MIN as i128, 1 => i64::MAX as i128, 2 => 0, _ => r.range(-50, 50) as i128 },
+    }
+}
+
+/// one call: which method, with which argument; `cur` are the object's current parameters
+fn draw_call(r: &mut Rng, sp: &Spec, cur: &[Val]) -> (usize, Arg) {
+    let ar = sp.kinds.len();
+    let two_sided = sp.doms[0] == Dom::Lower;
+    let k = if r.coin(0.45) { ar } else { r.below(ar as u64) as usize };
+    let valid = r.coin(0.7);
+    if k < ar {
+        if two_sided {
+            // a bound: valid = on the right side of the other bound
+            let (lo, hi) = (cur[0], cur[1]);
+            let v = match sp.kinds[k] {
+                K::I => { let (lo, hi) = (lo.i(), hi.i());
+                          let x = if (k == 0) == valid { lo.min(hi) - r.range(0, 9) as i128 } else { lo.max(hi) + r.range(if valid { 0 } else { 1 }, 9) as i128 };
+                          let x = if !valid && k == 0 { hi + r.range(1, 9) as i128 } else if !valid { lo - r.range(1, 9) as i128 } else { x };
+                          Val::I(x.clamp(i64::MIN as i128, i64::MAX as i128)) }
+                _ => { let (lo, hi) = (lo.f(), hi.f());
+                       let x = if k == 0 { if valid { hi - r.uniform(0.0, 7.0) * r.below(2) as f64 } else { hi + r.uniform(0.1, 7.0) } }
+                               else if valid { lo + r.uniform(0.0, 7.0) * r.below(2) as f64 } else { lo - r.uniform(0.1, 7.0) };
+                       Val::F(if r.coin(0.1) { value_for(r, Dom::Any, true) } else { x }) }
+            };
+            return (k, Arg::Set(v));
+        }
+        let v = match sp.kinds[k] { K::F => Val::F(value_for(r, sp.doms[k], valid)), kk => Val::I(int_for(r, kk, sp.doms[k], valid)) };
+        return (k, Arg::Set(v));
+    }
+    // update(params): mostly the right length
+    let mut v: Vec<f64> = vec![];
+    if two_sided {
+        let (lo, hi) = (cur[0].f(), cur[1].f());
+        let w = if sp.kinds[0] == K::I { (r.range(0, 12)) as f64 } else { r.uniform(0.0, 12.0) * r.below(4).min(1) as f64 };
+        let gap = if sp.kinds[0] == K::I { r.range(1, 20) as f64 } else { r.uniform(0.01, 20.0) };
+        let (a, b) = match r.below(6) {
+            0 => (hi + gap, hi + gap + w),                 // the whole interval moves above the old one
+            1 => (lo - gap - w, lo - gap),                 // ... below
+            2 => (lo - gap, hi + gap),                     // widen
+            3 => { let m = (lo + hi) / 2.0; (m, m) }       // collapse
+            4 => (value_for(r, Dom::Any, true), value_for(r, Dom::Any, true)),
+            _ => (r.uniform(-30.0, 30.0), r.uniform(-30.0, 30.0)),
+        };
+        let (a, b) = if sp.kinds[0] == K::I && r.coin(0.8) { (a.floor(), b.floor()) } else { (a, b) };
+        let (a, b) = if valid && a > b { (b, a) } else if !valid && a <= b { (b + gap, a) } else { (a, b) };
+        v.push(a); v.push(b);
+    } else {
+        let bad = if valid { usize::MAX } else { r.below(ar as u64) as usize };
+        for j in 0..ar { v.push(value_for(r, sp.doms[j], j != bad)); }
+    }
+    match r.below(14) { 0 => { v.pop(); } 1 => { v.push(1.0); } 2 => { v.clear(); } _ => {} }
+    (k, Arg::Update(v))
+}
+
+fn draw_initial(r: &mut Rng, sp: &Spec, valid: bool) -> Vec<Val> {
+    let ar = sp.kinds.len();
+    let bad = if valid { usize::MAX } else { r.below(ar as u64) as usize };
+    let mut p: Vec<Val> = (0..ar).map(|j| match sp.kinds[j] {
+        K::F => Val::F(value_for(r, sp.doms[j], j != bad)),
+        k => Val::I(int_for(r, k, sp.doms[j], j != bad)) }).collect();
+    if sp.doms[0] == Dom::Lower {
+        let sw = match (p[0], p[1]) { (Val::I(a), Val::I(b)) => a > b, (a, b) => a.f() > b.f() };
+        if sw == valid { p.swap(0, 1); }
+        if !valid && p[0].same(&p[1]) { p[0] = match p[0] { Val::I(a) => Val::I((a + 1).min(i64::MAX as i128)), Val::F(a) => Val::F(a + 1.0) }; }
+    }
+    p
+}
+
+/// the parameter vector a call asks for (Rust's own `as` casts for update), None when the slice is too short
+fn target_of(sp: &Spec, cur: &[Val], k: usize, a: &Arg) -> Option<Vec<Val>> {
+    match a {
+        Arg::Set(v) => { let mut t = cur.to_vec(); t[k] = *v; Some(t) }
+        Arg::Update(v) => {
+            if v.len() < sp.kinds.len() { return None; }
+            Some(sp.kinds.iter().enumerate().map(|(j, kk)| match kk { K::F => Val::F(v[j]), K::U => Val::I((v[j] as u64) as i128), K::I => Val::I((v[j] as i64) as i128) }).collect())
+        }
+    }
+}
+
+fn zs_fs(vals: &[Val]) -> (Tm, Tm) {
+    let zs: Vec<Tm> = vals.iter().filter_map(|v| if let Val::I(n) = v { Some(Tm::Raw(if *n < 0 { format!("({})%Z", n) } else { format!("{}%Z", n) })) } else { None }).collect();
+    let fs: Vec<Tm> = vals.iter().filter_map(|v| if let Val::F(x) = v { Some(Tm::F(*x)) } else { None }).collect();
+    (Tm::L(zs), Tm::L(fs))
+}
+
+/// object == fresh twin built from the object's own parameters?  (None: the constructor refuses them)
+fn twin_equal(id: usize, sp: &Spec, o: &Obj, seed: u64, with_draws: bool) -> Option<(bool, String)> {
+    let p = o.params(sp);
+    let twin = match construct(id, &p) { Ok(t) => t, Err(_) => return None };
+    if o.debug() != twin.debug() { return Some((false, format!("state {} but a fresh object is {}", o.debug(), twin.debug()))); }
+    let (lo, lt) = (o.look(), twin.look());
+    if lo != lt { return Some((false, format!("pdf/pmf/mean/var bits differ from the fresh twin at parameters {}", show_vals(&p)))); }
+    if with_draws && sample_safe(id, &p) {
+        let a = o.draws(seed, 12);
+        // other live objects, constructed in between, must not matter; nor must a second run from the same seed
+        let _others: Vec<Obj> = (0..13).filter_map(|j| construct(j, &default_params(j)).ok()).collect();
+        let b = twin.draws(seed, 12);
+        if a != b { return Some((false, format!("the first 12 draws after set_seed({}) differ from the fresh twin at parameters {}", seed, show_vals(&p)))); }
+    }
+    Some((true, String::new()))
+}
+fn default_params(id: usize) -> Vec<Val> {
+    match id { 0 => vec![Val::F(0.5)], 2 => vec![Val::I(3), Val::F(0.5)], 3 => vec![Val::I(2)], 4 => vec![Val::I(0), Val::I(3)],
+               5 | 10 | 11 => vec![Val::F(1.5)], 8 | 7 => vec![Val::F(0.0), Val::F(1.0)], 12 => vec![Val::F(0.0), Val::F(1.0)], _ => vec![Val::F(1.5), Val::F(2.0)] }
+}
+
+// ------------------------------------------------------------------------------------------------ gen
+pub fn gen(tier: &str, seed: u64, outdir: &str) {
+    let mut r = Rng::new(seed ^ 0xC18);
+    let mut cs = Cases::new("C18");
+    let thorough = tier == "thorough";
+    let per_dist = if thorough { 1500 } else { 60 };
+    for id in 0..13 {
+        let sp = &SPECS[id];
+        for h in 0..per_dist {
+            let valid0 = h % 10 != 9;
+            let mut p0 = draw_initial(&mut r, sp, valid0);
+            // NaN parameters: only in the correspondence stream (the property does not say whether NaN is "invalid";
+            // the model must still do what the code does: `x <= 0.` lets NaN through, `assert!(x > 0.)` and `contains` do not)
+            if h % 20 == 13 { let j = r.below(p0.len() as u64) as usize; if let Val::F(_) = p0[j] { p0[j] = Val::F(f64::NAN); } }
+            let (zs, fs) = zs_fs(&p0);
+            let mut o = match construct(id, &p0) {
+                Err(_) => { cs.push(app("CHist", vec![Tm::Nat(id as u64), zs, fs, Tm::Raw("Panic".into()), Tm::L(vec![])]), &format!("{}/new-panics", sp.name), false); continue; }
+                Ok(o) => o,
+            };
+            let (ezs, efs) = zs_fs(&o.flat());
+            let e0 = app("Val", vec![Tm::Tup(vec![ezs, efs])]);
+            let len = 1 + r.below(20) as usize;
+            let mut steps = vec![]; let mut changes = 0; let mut panics = 0;
+            for _ in 0..len {
+                let cur = o.params(sp);
+                let (k, mut a) = draw_call(&mut r, sp, &cur);
+                if r.coin(0.04) {
+                    match &mut a { Arg::Set(Val::F(x)) => *x = f64::NAN,
+                                   Arg::Update(v) if !v.is_empty() => { let j = r.below(v.len() as u64) as usize; v[j] = f64::NAN; }
+                                   _ => {} }
+                }
+                let before = o.debug();
+                let res = o.call(k, &a);
+                if o.debug() != before { changes += 1; }
+                if res.is_err() { panics += 1; }
+                let mname = if k == sp.kinds.len() { "update".to_string() } else { format!("set_{}", sp.names[k]) };
+                *cs.tags.entry(format!("call/{}::{}/{}", sp.name, mname, if res.is_ok() { "returns" } else if o.debug() != before { "panics-after-partial-update" } else { "panics" })).or_insert(0) += 1;
+                let tw = twin_equal(id, sp, &o, seed.wrapping_add(steps.len() as u64), true).map(|x| x.0).unwrap_or(false);
+                let (azs, afs) = match &a { Arg::Set(v) => zs_fs(&[*v]), Arg::Update(v) => (Tm::L(vec![]), fl(v)) };
+                let (szs, sfs) = zs_fs(&o.flat());
+                steps.push(Tm::Tup(vec![Tm::Nat(k as u64), azs, afs, Tm::Tup(vec![Tm::B(res.is_ok()), Tm::B(tw), szs, sfs])]));
+            }
+            let tag = format!("{}/len{}{}", sp.name, if len <= 5 { "1-5" } else if len <= 12 { "6-12" } else { "13-20" }, if panics > 0 { "+panics" } else { "" });
+            cs.push(app("CHist", vec![Tm::Nat(id as u64), zs, fs, e0, Tm::L(steps)]), &tag, changes >= 2);
+        }
+    }
+    cs.write(outdir, if thorough { 450 } else { 400 }, "a history with at least two calls that changed the object's state");
+}
+
+// ------------------------------------------------------------------------------------------------ oracle
+/// the breadcrumb keeps 2047 bytes: for a long history keep its beginning and its end (the call about to run)
+fn crumb_text(h: &str) -> String {
+    if h.len() <= 2000 { return h.to_string(); }
+    let a = (0..=500).rev().find(|i| h.is_char_boundary(*i)).unwrap_or(0);
+    let b = (h.len() - 1400..h.len()).find(|i| h.is_char_boundary(*i)).unwrap_or(h.len());
+    format!("{} ... {}", &h[..a], &h[b..])
+}
+pub fn oracle(tier: &str, seed: u64) -> (u64, Vec<Finding>) {
+    let mut out: Vec<Finding> = vec![]; let mut tried = 0u64;
+    let nseeds = if tier == "thorough" { 400 } else { 50 };
+    for id in 0..13 {
+        let sp = &SPECS[id];
+        for s in 0..nseeds {
+            let mut r = Rng::new(seed ^ 0x18_0000 ^ ((id as u64) << 32) ^ s);
+            let p0 = draw_initial(&mut r, sp, s % 8 != 7);
+            let mut hist = format!("{}::new({})", sp.name, show_vals(&p0));
+            tried += 1;
+            crumb(&hist);
+            let mut o = match construct(id, &p0) {
+                Ok(o) => { if !in_domain(sp, &p0) { out.push(Finding { class: format!("constructor-accepts-out-of-domain:{}", sp.name), what: "the constructor returned an object for parameters outside the documented domain".into(), input: hist.clone() }); } o }
+                Err(e) => { if in_domain(sp, &p0) { out.push(Finding { class: format!("constructor-rejects-valid:{}", sp.name), what: format!("the constructor panicked ({}) on parameters inside the documented domain", e), input: hist.clone() }); } continue; }
+            };
+            let len = 1 + r.below(20) as usize;
+            for step in 0..len {
+                let cur = o.params(sp);
+                let (k, a) = draw_call(&mut r, sp, &cur);
+                let mname = if k == sp.kinds.len() { "update".to_string() } else { format!("set_{}", sp.names[k]) };
+                hist.push_str(&match &a { Arg::Set(v) => format!("; {}({})", mname, v.show()), Arg::Update(v) => format!("; update({})", json_floats(v).replace('"', "")) });
+                let before = o.debug();
+                crumb(&crumb_text(&hist));
+                let res = o.call(k, &a);
+                tried += 1;
+                let target = target_of(sp, &cur, k, &a);
+                let wf = match &a { Arg::Update(v) => v.len() == sp.kinds.len(), _ => true };
+                // validity of the request: the constructor's verdict, cross-checked with the documented domain
+                let verdict = target.as_ref().map(|t| (construct(id, t).is_ok(), in_domain(sp, t)));
+                match (verdict, &res) {
+                    (Some((true, true)), Err(e)) if wf =>
+                        out.push(Finding { class: format!("valid-request-rejected:{}::{}", sp.name, mname), what: format!("the call panicked ({}) although {}::new accepts the requested parameters {} (current parameters {})", e, sp.name, show_vals(target.as_ref().unwrap()), show_vals(&cur)), input: hist.clone() }),
+                    (Some((true, true)), Ok(())) => {
+                        if !same_vals(&o.params(sp), target.as_ref().unwrap()) {
+                            out.push(Finding { class: format!("request-not-applied:{}::{}", sp.name, mname), what: format!("after the call the parameters are {}, requested {}", show_vals(&o.params(sp)), show_vals(target.as_ref().unwrap())), input: hist.clone() }); }
+                    }
+                    (Some((false, false)), Ok(())) | (None, Ok(())) =>
+                        out.push(Finding { class: format!("invalid-request-accepted:{}::{}", sp.name, mname), what: format!("the call returned although the requested parameters {:?} are refused by the constructor / the slice is too short", target.as_ref().map(|t| show_vals(t))), input: hist.clone() }),
+                    (Some((a_, b_)), _) if a_ != b_ =>
+                        out.push(Finding { class: format!("constructor-vs-documented-domain:{}", sp.name), what: format!("{}::new {} parameters {} that the documented domain {}", sp.name, if a_ { "accepts" } else { "rejects" }, show_vals(target.as_ref().unwrap()), if b_ { "contains" } else { "excludes" }), input: hist.clone() }),
+                    _ => {}
+                }
+                if res.is_err() && k < sp.kinds.len() && o.debug() != before {
+                    out.push(Finding { class: format!("rejected-setter-mutated-object:{}::{}", sp.name, mname), what: format!("the setter panicked but the object changed from {} to {}", before, o.debug()), input: hist.clone() });
+                }
+                match twin_equal(id, sp, &o, seed.wrapping_mul(31).wrapping_add(step as u64), true) {
+                    None => out.push(Finding { class: format!("object-holds-refused-parameters:{}", sp.name), what: format!("the object is {} but {}::new panics on these parameters", o.debug(), sp.name), input: hist.clone() }),
+                    Some((false, why)) => { out.push(Finding { class: format!("differs-from-fresh-twin:{}", sp.name), what: why, input: hist.clone() }); }
+                    Some((true, _)) => {}
+                }
+                // reproducibility of the seeded stream on the object itself
+                let p = o.params(sp);
+                if step == len - 1 && sample_safe(id, &p) {
+                    let a1 = o.draws(seed ^ 77, 8); let a2 = o.draws(seed ^ 77, 8);
+                    if a1 != a2 { out.push(Finding { class: format!("sampling-not-reproducible:{}", sp.name), what: "two runs of 8 draws from the same seed differ".into(), input: hist.clone() }); }
+                }
+            }
+            // keep at most three findings per class
+            let mut seen: std::collections::HashMap<String, u32> = std::collections::HashMap::new();
+            out.retain(|f| { let c = seen.entry(f.class.clone()).or_insert(0); *c += 1; *c <= 3 });
+        }
+    }
+    (tried, out)
+}
